@@ -155,12 +155,12 @@ func runC16(cfg *vh.Config) error {
 		if pks[i].mut != nil {
 			input["mutation"] = pks[i].why
 		}
-		if st := r.status("compile"); st != "err" && pks[i].mut == nil && (p.Clash == "case" || p.Clash == "badlist" || p.Clash == "enumdefault") {
+		if st := r.status("compile"); st != "err" && pks[i].mut == nil && (p.Clash == "case" || p.Clash == "badlist" || p.Clash == "enumdefault" || p.Clash == "unicode") {
 			// classes the compiler has to reject itself (protoc's enum value rule, /repo 4fb405b; list method shape, /repo cec4e3a;
-			// an enum default filter naming no option, /repo fb0e252)
-			res.Fail(vh.Failure{Case: caseNo, Stream: stream, Sig: "C16 package of class " + p.Clash + " -> accepted by the compiler (enum options differing only in case / list method without exactly one array of objects / enum default filter naming no option must be a compile error)",
+			// an enum default filter naming no option, /repo fb0e252; names that are not protobuf identifiers, /repo c71d8d9 by cmpb)
+			res.Fail(vh.Failure{Case: caseNo, Stream: stream, Sig: "C16 package of class " + p.Clash + " -> accepted by the compiler (enum options differing only in case / list method without exactly one array of objects / enum default filter naming no option / non-ASCII identifier must be a compile error)",
 				Clause: "the compiled output can be turned into image, source API, client API, J5 JSON and OpenAPI without error or crash", Input: input, Got: r.firstBad()})
-		} else if st == "err" && (p.Clash == "case" || p.Clash == "badlist" || p.Clash == "enumdefault") {
+		} else if st == "err" && (p.Clash == "case" || p.Clash == "badlist" || p.Clash == "enumdefault" || p.Clash == "unicode") {
 			res.Count(stream + ":class " + p.Clash + " rejected by the compiler (as it must be)")
 		}
 		if st := r.status("compile"); st == "err" {
